@@ -1,41 +1,15 @@
-(* Driver for the extracted C04 models (coq/C04 + coq/Lang).
-   c04_model prog [fuel]   stdin: one CbCore program per line as an S-expression (grammar: see
-                           ocaml/lang_driver.ml, the reader below is the same code); per program prints
-                             ===BEGIN / <Cb source text> / ===EXPECT <finished|range|...> / <expected stdout> / ===END
-                           computed by [run_c04] (Ref with range-checked global initialisers).
+(* Driver for the extracted C04 store-path models (coq/C04/Model.v).
    c04_model mech          stdin: one query per line
                              store  <path> <type> <value>          -> val N | range | other     (Mech: mech_store)
                              update <path> <type> <old> <delta>    -> val N | range | other     (Mech: mech_elem1_update)
                              spec   <type> <value>                 -> val N | range | other     (Spec: Lang.Sem.coerce)
                            path := decl|assign|compound|arg|global-scalar|static|incdec-var|incdec-elem1|return|elem1|
-                                   elem1-compound|elemN|lit1|litN|global-arr|assign-from-elemN                          *)
+                                   elem1-compound|elemN|lit1|litN|global-arr|assign-from-elemN
+                           type := tiny|short|int|long|char|bool|utiny|ushort|uint|ulong|uchar
+   Whole programs are run by bin/lang_model (ocaml/lang_driver.ml). *)
 open C04_model
 
-type sx = A of string | L of sx list
-
-let parse_sx (s : string) : sx =
-  let n = String.length s in
-  let pos = ref 0 in
-  let rec skip () = while !pos < n && (s.[!pos] = ' ' || s.[!pos] = '\t') do incr pos done
-  and item () =
-    skip ();
-    if !pos >= n then failwith "eof"
-    else if s.[!pos] = '(' then begin
-      incr pos;
-      let items = ref [] in
-      skip ();
-      while !pos < n && s.[!pos] <> ')' do items := item () :: !items; skip () done;
-      if !pos >= n then failwith "unclosed";
-      incr pos; L (List.rev !items)
-    end else begin
-      let st = !pos in
-      while !pos < n && s.[!pos] <> ' ' && s.[!pos] <> '(' && s.[!pos] <> ')' && s.[!pos] <> '\t' do incr pos done;
-      A (String.sub s st (!pos - st))
-    end in
-  item ()
-
 let rec nat_of_int n = if n <= 0 then O else S (nat_of_int (n - 1))
-let rec int_of_nat = function O -> 0 | S k -> 1 + int_of_nat k
 let zsmall n = Z.of_nat (nat_of_int n)
 let z_of_string (s : string) : z =
   let neg = String.length s > 0 && s.[0] = '-' in
@@ -48,13 +22,7 @@ let z_of_string (s : string) : z =
     acc := Z.add (Z.mul !acc ten) (zsmall d)
   done;
   if neg then Z.opp !acc else !acc
-
-let explode s = List.init (String.length s) (String.get s)
-let implode l = let b = Buffer.create 256 in List.iter (Buffer.add_char b) l; Buffer.contents b
-
-let atom = function A s -> s | L _ -> failwith "atom expected"
-let nat_a x = nat_of_int (int_of_string (atom x))
-let bool_a x = (atom x) = "1"
+let implode l = let b = Buffer.create 64 in List.iter (Buffer.add_char b) l; Buffer.contents b
 
 let ty_of s =
   let mk b u = { base = b; uns = u } in
@@ -64,73 +32,6 @@ let ty_of s =
   | "utiny" -> mk TTiny true | "ushort" -> mk TShort true | "uint" -> mk TInt true | "ulong" -> mk TLong true
   | "uchar" -> mk TChar true
   | _ -> failwith ("type " ^ s)
-
-let binop_of = function
-  | "+" -> Add | "-" -> Sub | "*" -> Mul | "/" -> Div | "%" -> Mod | "&" -> BAnd | "|" -> BOr | "^" -> BXor
-  | "<<" -> Shl | ">>" -> Shr | "<" -> Lt0 | "<=" -> Le | ">" -> Gt0 | ">=" -> Ge | "==" -> Eq0 | "!=" -> Ne
-  | s -> failwith ("binop " ^ s)
-let unop_of = function "-" -> Neg | "!" -> LNot | "~" -> BNot | s -> failwith ("unop " ^ s)
-
-let rec expr_of = function
-  | A s -> ENum (z_of_string s)
-  | L [A "v"; n] -> EVar (nat_a n)
-  | L [A "un"; o; e] -> EUn (unop_of (atom o), expr_of e)
-  | L [A "bin"; o; a; b] -> EBin (binop_of (atom o), expr_of a, expr_of b)
-  | L [A "and"; a; b] -> EAnd (expr_of a, expr_of b)
-  | L [A "or"; a; b] -> EOr (expr_of a, expr_of b)
-  | L [A "cond"; c; a; b] -> ECond (expr_of c, expr_of a, expr_of b)
-  | L (A "call" :: f :: args) -> ECall (nat_a f, List.map expr_of args)
-  | L (A "idx" :: a :: idx) -> EIdx (nat_a a, List.map expr_of idx)
-  | _ -> failwith "expr"
-let lval_of = function
-  | L [A "v"; n] -> LVar (nat_a n)
-  | L (A "idx" :: a :: idx) -> LIdx (nat_a a, List.map expr_of idx)
-  | _ -> failwith "lval"
-let list_of = function L l -> l | A _ -> failwith "list expected"
-let rec stmt_of = function
-  | L [A "decl"; c; s; t; x] -> SDecl (bool_a c, bool_a s, ty_of (atom t), nat_a x, None)
-  | L [A "decl"; c; s; t; x; e] -> SDecl (bool_a c, bool_a s, ty_of (atom t), nat_a x, Some (expr_of e))
-  | L [A "arr"; c; t; x; dims; init] ->
-      SArr (bool_a c, ty_of (atom t), nat_a x, List.map nat_a (list_of dims), List.map expr_of (list_of init))
-  | L [A "asg"; lv; e] -> SAssign (lval_of lv, None, expr_of e)
-  | L [A "casg"; o; lv; e] -> SAssign (lval_of lv, Some (binop_of (atom o)), expr_of e)
-  | L [A "incdec"; p; i; lv] -> SIncDec (bool_a p, bool_a i, lval_of lv)
-  | L [A "expr"; e] -> SExpr (expr_of e)
-  | L [A "if"; c; s1; s2] -> SIf (expr_of c, stmts_of s1, stmts_of s2)
-  | L [A "while"; c; b] -> SWhile (expr_of c, stmts_of b)
-  | L [A "for"; i; c; u; b] -> SFor (stmts_of i, expr_of c, stmts_of u, stmts_of b)
-  | L [A "break"] -> SBreak
-  | L [A "continue"] -> SContinue
-  | L [A "ret"] -> SReturn None
-  | L [A "ret"; e] -> SReturn (Some (expr_of e))
-  | L (A "block" :: ss) -> SBlock (List.map stmt_of ss)
-  | L (A "print" :: n :: args) -> SPrint (bool_a n, List.map expr_of args)
-  | _ -> failwith "stmt"
-and stmts_of x = List.map stmt_of (list_of x)
-
-let param_of = function
-  | L [n; t] -> { pty = ty_of (atom t); pname = nat_a n; pdef = None }
-  | L [n; t; d] -> { pty = ty_of (atom t); pname = nat_a n; pdef = Some (expr_of d) }
-  | _ -> failwith "param"
-let func_of = function
-  | L [A "F"; n; r; ps; body] ->
-      { fname = nat_a n; fret = (match atom r with "void" -> None | s -> Some (ty_of s));
-        fparams = List.map param_of (list_of ps); fbody = stmts_of body }
-  | _ -> failwith "func"
-let gdecl_of = function
-  | L [A "G"; c; t; n; dims; init] ->
-      { gcst = bool_a c; gty = ty_of (atom t); gname = nat_a n; gdims = List.map nat_a (list_of dims);
-        ginit = List.map (fun x -> z_of_string (atom x)) (list_of init) }
-  | _ -> failwith "gdecl"
-let prog_of = function
-  | L [A "P"; gs; fs; m] ->
-      { pglobals = List.map gdecl_of (list_of gs); pfuncs = List.map func_of (list_of fs); pmain = stmts_of m }
-  | _ -> failwith "prog"
-
-let err_s = function
-  | EDiv0 -> "div0" | ERange -> "range" | EBounds -> "bounds" | EConst -> "const" | EArity -> "arity"
-  | EUnbound -> "unbound" | EUndef -> "undef" | ENoFuel -> "nofuel"
-
 
 let path_of = function
   | "decl" -> PDecl | "assign" -> PAssign | "compound" -> PCompound | "arg" -> PArg | "global-scalar" -> PGlobalScalar
@@ -144,24 +45,7 @@ let show_ctl = function
   | Fail ERange -> "range"
   | _ -> "other"
 
-let prog_mode fuel =
-  try
-    while true do
-      let line = input_line stdin in
-      if String.length line > 0 then begin
-        let p = prog_of (parse_sx line) in
-        print_endline "===BEGIN";
-        print_string (implode (print_program p));
-        let (out, oc) = run_c04 fuel p in
-        print_endline ("===EXPECT " ^ (match oc with Finished -> "finished" | Failed e -> err_s e));
-        print_string (implode (render out));
-        print_endline "";
-        print_endline "===END"
-      end
-    done
-  with End_of_file -> ()
-
-let mech_mode () =
+let () =
   try
     while true do
       let line = input_line stdin in
@@ -173,9 +57,3 @@ let mech_mode () =
       | _ -> print_endline "bad-query"
     done
   with End_of_file -> ()
-
-let () =
-  let mode = if Array.length Sys.argv > 1 then Sys.argv.(1) else "prog" in
-  match mode with
-  | "mech" -> mech_mode ()
-  | _ -> prog_mode (nat_of_int (if Array.length Sys.argv > 2 then int_of_string Sys.argv.(2) else 20000))
